@@ -1203,7 +1203,7 @@ const batchSize = 100
 
 func run(m *mon.M) {
 	r := m.Rand("standalone")
-	n := m.N(2500, 60000)
+	n := m.N(8000, 80000)
 	for i := 0; i < n; i++ {
 		if i%batchSize == 0 {
 			m.Begin(&batchCase{Batch: &Batch{Seed: m.Seed, Shard: m.Shard, From: i, Count: batchSize}})
@@ -1211,7 +1211,7 @@ func run(m *mon.M) {
 		runCase(m, genStandalone(r))
 	}
 	ra := m.Rand("api")
-	na := m.N(150, 5000)
+	na := m.N(400, 6000)
 	for i := 0; i < na; i++ {
 		c := genAPI(ra)
 		m.Begin(c)
